@@ -87,6 +87,19 @@ def pairs(rng, tier):
                 out.append(((oa * g) << i, (ob * g) << j))
             if rng.randrange(4) == 0:
                 out.append((1 << i, ob << j)); out.append((oa << i, 1 << j)); out.append((1 << i, 1 << j))
+    # pairs constructed from their Euclidean quotient sequence: runs of tiny quotients with huge (2^32 … multi-digit)
+    # quotients in the middle, with and without a common factor (genlib.cf_pair)
+    for nq, huge in [(12, None), (40, {7}), (80, {30}), (150, {75}), (300, {150}), (300, {3, 150, 290}), (420, {200, 201})] + ([(800, {400}), (1000, {10, 500, 990})] if thorough else []):
+        a, b = cf_pair(rng, nq, huge)
+        out.append((a, b)); out.append((b, a))
+    # exact multiples g·c where g and g·c share their leading digit (c = 2^(64k), 2^(64k) + small): an exact division of
+    # an operand by the gcd (lcm = a / g · b) sees equal leading digits (C13-y1: Hensel division one quotient digit short)
+    for gl in (1, 2, 3, 5):
+        g = odd(rng, gl) if gl > 1 else (1 << 64) + 3
+        for c in ((1 << 64), (1 << 64) + 1, (1 << 128) + rng.randrange(1 << 20), (1 << 130) + 1, (1 << 192)):
+            a = g * c
+            b = g * (rng.randrange(1, B * B) | 1)
+            out.append((a, b)); out.append((b, a)); out.append((a << 6, b << 3)); out.append((a, g)); out.append((g << 70, a << 1))
     # Fibonacci neighbours (longest Euclid chains), various sizes
     for n in [10, 90, 93, 94, 185, 186, 500] + ([3000] if thorough else [1200]):
         a, b = fib_pair(n)
